@@ -250,6 +250,24 @@ def planar(j):
                 if a is not None:
                     ok = abs(float(a) / k) <= PI + 1e-9 and float(np.max(np.abs(gamma.rotz(float(a) / k)[:2, :2] - H[:2, :2]))) <= TOL
                     check(j, ok, "SO2.theta", "theta=%g;%s" % (th, unit), "rebuild-differs", {"theta": th, "got": float(a)}, cid)
+                # the same extraction on objects holding TWO values (the second one is the rotation under test)
+                H0 = gamma.real_T3(0.4, (2.0, 1.0))
+                for site, fn in (("SO2.theta[2-valued]", lambda: SO2([H0[:2, :2], H[:2, :2]], check=False).theta(unit=unit)),
+                                 ("SE2.theta[2-valued]", lambda: SE2([H0, H], check=False).theta(unit=unit))):
+                    cid = (site, unit)
+                    a2 = guard(j, site, "theta=%g;%s" % (th, unit), {}, cid, fn)
+                    if a2 is not None:
+                        a2 = np.asarray(a2, dtype=float).ravel()
+                        ok = a2.shape == (2,) and abs(a2[0] / k - 0.4) <= 1e-9 and abs(a2[1] / k) <= PI + 1e-9 and \
+                            float(np.max(np.abs(gamma.rotz(a2[1] / k)[:2, :2] - H[:2, :2]))) <= TOL
+                        check(j, ok, site, "theta=%g;%s" % (th, unit), "rebuild-differs", {"theta": th, "got": a2.tolist()}, cid)
+                if unit == "rad":
+                    cid = ("SE2.xyt[2-valued]", unit)
+                    a3 = guard(j, "SE2.xyt[2-valued]", "theta=%g" % th, {}, cid, lambda: SE2([H0, H], check=False).xyt())
+                    if a3 is not None:
+                        a3 = np.asarray(a3, dtype=float)
+                        ok = a3.shape == (2, 3) and float(np.max(np.abs(b.xyt2tr(a3[1]) - H))) <= TOL * sc and float(np.max(np.abs(b.xyt2tr(a3[0]) - H0))) <= TOL
+                        check(j, ok, "SE2.xyt[2-valued]", "theta=%g" % th, "rebuild-differs", {"theta": th, "got": a3.tolist()}, cid)
 
 
 def wide_angle_constructors(j):
